@@ -131,9 +131,16 @@ class TmpFileAssignmentPrinter(AbstractAssignmentPrinter):
         AbstractAssignmentPrinter.__init__(self, output_file_name, params)
         self.dumper = open(self.output_file_name, "wb")
 
-    def __del__(self):
+    def close(self):
+        # writes the stream terminator; to be called explicitly: an error or an interrupt that occurs
+        # while a destructor is running is ignored by the interpreter and the caller goes on with a truncated file
+        if self.dumper.closed:
+            return
         write_short_int(SHORT_TERMINATION_INT, self.dumper)
         self.dumper.close()
+
+    def __del__(self):
+        self.close()
 
     def add_gene_info(self, gene_info):
         write_short_int(self.GENE_INFO, self.dumper)
